@@ -65,7 +65,12 @@ func (mm *MMapRWManager) WriteAt(b []byte, off int64) (n int, err error) {
 		return 0, ErrIndexOutOfBound
 	}
 
-	return copy(mm.m[off:], b), nil
+	n = copy(mm.m[off:], b)
+	if n < len(b) {
+		return n, ErrIndexOutOfBound
+	}
+
+	return n, nil
 }
 
 // ReadAt copies data to b slice from mapped region starting at
